@@ -113,8 +113,9 @@ def run(ctx):
 
     # ------------------------------------------------------------------ R06.9 (shared with C07 R07.5)
     r = ctx.rule("R06.9", "end-tag handling in the dispatcher does not depend on the parser mode: the selector VM is told about a tag before the dispatcher tests whether content removal stops at it", "E-MIR", floor=1)
-    from .c07 import clause_vm_told_before_reenable
+    from .c07 import clause_vm_told_before_reenable, clause_raw_emission_gated
     clause_vm_told_before_reenable(r, mir)
+    clause_raw_emission_gated(r, mir)
 
     # ------------------------------------------------------------------ R06.8 (shared with C04 R04.7)
     # match ids must not depend on how many other selectors are registered
